@@ -1,6 +1,6 @@
 from __future__ import annotations
 
-from typing_extensions import Union, TYPE_CHECKING
+from typing_extensions import Union, Optional, TYPE_CHECKING
 
 from .conclusion_selector import ExceptIf, Alternative, Next
 from .enums import RDREdge
@@ -29,13 +29,23 @@ def refinement(*conditions: ConditionType) -> SymbolicExpression[T]:
     """
     new_branch = chained_logic(AND, *conditions)
     current_node = SymbolicExpression._current_parent_()
-    prev_parent = current_node._parent_
+    prev_parent = _parent_in_the_tree(current_node)
     current_node._parent_ = None
     new_conditions_root = ExceptIf(SymbolicExpression._current_parent_(), new_branch)
     new_branch._node_.weight = RDREdge.Refinement
     new_conditions_root._parent_ = prev_parent
     _replace_operand(prev_parent, current_node, new_conditions_root)
     return new_conditions_root.right
+
+
+def _parent_in_the_tree(node: SymbolicExpression) -> Optional[SymbolicExpression]:
+    """
+    :param node: A node of a rule tree.
+    :return: The node it hangs under in the tree as it is written now. (After an evaluation `_parent_` still answers with
+     the parent the node was evaluated under, which may have been replaced by a branch written since.)
+    """
+    parent_node = node._node_.parent
+    return parent_node.data if parent_node is not None else None
 
 
 def _replace_operand(
@@ -93,12 +103,12 @@ def alternative_or_next(
     """
     new_branch = chained_logic(AND, *conditions)
     current_node = SymbolicExpression._current_parent_()
-    while isinstance(current_node._parent_, (Alternative, Next)) or (
-        isinstance(current_node._parent_, ExceptIf)
-        and current_node is current_node._parent_.left
+    while isinstance(_parent_in_the_tree(current_node), (Alternative, Next)) or (
+        isinstance(_parent_in_the_tree(current_node), ExceptIf)
+        and current_node is _parent_in_the_tree(current_node).left
     ):
-        current_node = current_node._parent_
-    prev_parent = current_node._parent_
+        current_node = _parent_in_the_tree(current_node)
+    prev_parent = _parent_in_the_tree(current_node)
     current_node._parent_ = None
     if type_ == RDREdge.Alternative:
         new_conditions_root = Alternative(current_node, new_branch)
